@@ -590,6 +590,14 @@ class EnumGen:
                 singles.append(n)
             if zero:
                 specs.append({"names": [nxt()], "form": "t", "ty": T, "exprs": [("lit", 0)]})
+        # the C04 dimension "other specs in the same block": constants of another type, untyped constants with a value followed by
+        # empty specs that repeat them (small numbers, often equal to a union of the flags) - none of them is a constant of T
+        aux = False
+        if feature == "distractor" or rng.random() < 0.35:
+            for _ in range(rng.choice([1, 1, 2])):
+                d = self._distractor(rng, used)
+                aux = aux or any(sp.get("ty") == "Aux" or sp.get("ety") == "Aux" for sp in d)
+                specs += d
         ncomp = rng.choice([0, 0, 1, 2]) if len(singles) >= 2 else 0
         if feature == "composite":
             if len(singles) < 2:
@@ -612,7 +620,7 @@ class EnumGen:
                 blocks[0]["specs"] += comp
             else:
                 blocks.append({"paren": len(comp) > 1 or rng.random() < 0.5, "specs": comp})
-        return {"T": T, "kind": kind, "files": [{"name": "a.go", "blocks": blocks}], "aux": False}
+        return {"T": T, "kind": kind, "files": [{"name": "a.go", "blocks": blocks}], "aux": aux}
 
 
 def bit_shape(en, decl):
@@ -662,6 +670,9 @@ def render_files(en, pkg="cs", aux_separate=False):
     out = {}
     for i, f in enumerate(en["files"]):
         body = ["package %s\n" % pkg]
+        if f["name"] in en.get("genheader", ()):
+            # the file is the output of some OTHER generator (a code table written by a project tool): standard header
+            body = ["// Code generated by tablegen v1.2 from %s.csv; DO NOT EDIT.\n" % en["T"].lower(), "package %s\n" % pkg]
         locs = en.get("locals", []) if i == 0 else []
         if _uses_time(f["blocks"]) or _uses_time(locs):
             body.append('import "time"\n')
@@ -1117,23 +1128,61 @@ func verifRes(err error, t %(T)s) string {
     return "\n".join(src)
 
 
-def oracle_c14(en, decl, hi, negs=()):
+def oracle_c14(en, decl, hi, negs=(), codec=()):
     T = en["T"]
     sg = KINDS[en["kind"]][0]
     flags = sorted(set(v for _, v in decl))
-    src = ['package cs\n', 'import (\n\t"strconv"\n\t"strings"\n)\n', DEC_HELPERS[sg] % {"T": T}]
+    imps = ['"strconv"', '"strings"'] + (['"encoding/json"'] if "json" in codec else [])
+    src = ['package cs\n', 'import (\n\t' + "\n\t".join(sorted(imps)) + '\n)\n', DEC_HELPERS[sg] % {"T": T}]
+    hist = ""
+    if "text" in codec:
+        hist += '''	for n := hi - 1; n >= 0; n-- {
+		b, _ := %(T)s(n).MarshalText()
+		vals[n] = string(b)
+	}
+	emit("tstrs", strings.Join(vals, "|"))
+''' % {"T": T}
+    if "json" in codec:
+        hist += '''	for n := hi - 1; n >= 0; n-- {
+		b, _ := json.Marshal(%(T)s(n))
+		var s string
+		if e := json.Unmarshal(b, &s); e != nil {
+			s = "raw:" + string(b)
+		}
+		vals[n] = s
+	}
+	emit("jstrs", strings.Join(vals, "|"))
+''' % {"T": T}
+    if "sql" in codec:
+        hist += '''	for n := hi - 1; n >= 0; n-- {
+		v, _ := %(T)s(n).Value()
+		s, ok := v.(string)
+		if !ok {
+			s = "nonstring"
+		}
+		vals[n] = s
+	}
+	emit("vstrs", strings.Join(vals, "|"))
+''' % {"T": T}
     src.append('''func VerifObserve(emit func(string, string)) {
 	const hi = %(hi)d
 	emit("decl", strings.Join([]string{%(decl)s}, ","))
-	var sb strings.Builder
+	vals := make([]string, hi)
 	for n := 0; n < hi; n++ {
-		if n > 0 {
-			sb.WriteByte('|')
-		}
-		sb.WriteString(%(T)s(n).String())
+		vals[n] = %(T)s(n).String()
 	}
-	emit("strs", sb.String())
-%(negs)s	for _, f := range []%(T)s{%(flags)s} {
+	emit("strs", strings.Join(vals, "|"))
+%(negs)s	// call histories: String() must be a function of the value - the same sweep in DESCENDING call order (every union before 0 and
+	// before the declared values), through every encoder the flags add, and ascending once more
+	for n := hi - 1; n >= 0; n-- {
+		vals[n] = %(T)s(n).String()
+	}
+	emit("strs2", strings.Join(vals, "|"))
+%(hist)s	for n := 0; n < hi; n++ {
+		vals[n] = %(T)s(n).String()
+	}
+	emit("strs3", strings.Join(vals, "|"))
+	for _, f := range []%(T)s{%(flags)s} {
 		var h, a, r strings.Builder
 		for n := 0; n < hi; n++ {
 			x := %(T)s(n)
@@ -1154,7 +1203,7 @@ def oracle_c14(en, decl, hi, negs=()):
 		emit("rem:"+verifDec(f), r.String())
 	}
 }
-''' % {"hi": hi, "T": T, "flags": ", ".join(str(v) for v in flags),
+''' % {"hi": hi, "T": T, "flags": ", ".join(str(v) for v in flags), "hist": hist,
        "negs": ('\t{\n\t\tvar p []string\n\t\tfor _, x := range []%s{%s} {\n\t\t\tp = append(p, x.String())\n\t\t}\n'
                 '\t\temit("nstrs", strings.Join(p, "|"))\n\t}\n' % (T, ", ".join(str(v) for v in negs))) if negs else "",
        "decl": ", ".join('"%s=" + verifDec(%s)' % (n, n) for n, _ in decl)})
@@ -1303,6 +1352,17 @@ def generated_files(written):
 RUN_MODES = ["type", "list", "file", "file-comp"]
 
 
+def _choose_genheader(rng, en):
+    """in packages whose constants are spread over several files, one constant-bearing file other than the type's is, in 45% of the
+    cases, the output of ANOTHER generator (standard `// Code generated … DO NOT EDIT.` header): its constants are constants of the
+    package like any other"""
+    if "genheader" in en:
+        return
+    tf = en.get("typefile", 0)
+    cand = [f["name"] for k, f in enumerate(en["files"]) if k != tf and f["blocks"] and not (k == 0 and en.get("locals"))]
+    en["genheader"] = [rng.choice(cand)] if cand and rng.random() < 0.45 else []
+
+
 def layout(ctx, g, en, allow_file=True, force=None):
     """How the observed enum sits in its package and what ONE shoot run generates besides it:
       type       -type=T
@@ -1338,6 +1398,12 @@ def layout(ctx, g, en, allow_file=True, force=None):
             mode = "type" if mode == "list" else "file"
         else:
             comp_src = "type %s %s\n\n" % (comp["T"], comp["kind"]) + "\n".join(render_block(b) for f in comp["files"] for b in f["blocks"])
+    if mode in ("type", "list") and len(en["files"]) == 1 and len(en["files"][0]["blocks"]) >= 2 and not en.get("locals") and rng.random() < 0.35:
+        blocks = en["files"][0]["blocks"]
+        k = rng.randint(1, len(blocks) - 1)
+        en["files"][0]["blocks"] = blocks[:k]
+        en["files"].append({"name": "b.go", "blocks": blocks[k:]})
+        en["typefile"] = 0
     if mode in ("file", "file-comp"):
         if len(en["files"]) == 1 and len(en["files"][0]["blocks"]) >= 2 and rng.random() < 0.85:
             blocks = en["files"][0]["blocks"]
@@ -1360,6 +1426,7 @@ def layout(ctx, g, en, allow_file=True, force=None):
                     en["typefile"] = 0
             except (ValueError, KeyError):
                 pass
+        _choose_genheader(rng, en)
         files = render_files(en, aux_separate=True)
         tf = en["files"][en.get("typefile", 0)]["name"]
         sel = ["-file=" + tf]
@@ -1368,6 +1435,7 @@ def layout(ctx, g, en, allow_file=True, force=None):
             assert marker in files[tf]
             files[tf] = files[tf].replace(marker, comp_src + "\n" + marker, 1)
     else:
+        _choose_genheader(rng, en)
         files = render_files(en)
         if mode == "list":
             files["a0_comp.go"] = "package cs\n\n" + comp_src
@@ -1375,7 +1443,7 @@ def layout(ctx, g, en, allow_file=True, force=None):
         else:
             sel = ["-type=" + T]
     extra = {"zz_comp.go": "package cs\n\n" + comp_src} if comp_src else {}
-    return {"mode": mode, "files": files, "sel": sel, "companion": comp, "extra": extra,
+    return {"mode": mode, "files": files, "sel": sel, "companion": comp, "extra": extra, "genheader": sorted(en.get("genheader", [])),
             "nfiles": len(en["files"]), "spread": sum(1 for f in en["files"] if f["blocks"]) > 1}
 
 
@@ -1714,6 +1782,7 @@ def enum_source_facts(repo=None):
     `r.x`, "()" for a call `r.x(`), reads, writes and calls alike, sorted"""
     d = os.path.join(repo or core.REPO, "internal", "enumer")
     facts = set()
+    control = set()
     for fn in sorted(os.listdir(d)):
         if not fn.endswith(".go") or fn.endswith("_test.go"):
             continue
@@ -1734,22 +1803,27 @@ def enum_source_facts(repo=None):
                         break
                 j += 1
             body = src[k:j]
+            for kw in ("if", "switch", "continue", "goto"):
+                control.add((name, kw, len(re.findall(r"(?<![\w.])%s(?![\w])" % kw, body))))
             for s in re.finditer(r"(?<![\w.])%s\.([A-Za-z_]\w*)(?:\.([A-Za-z_]\w*))?" % re.escape(recv), body):
                 a, b = s.group(1), s.group(2)
                 after = body[s.end(1):s.end(1) + 1]
                 facts.add((name, a, "()" if after == "(" else (b or "")))
-    return sorted(facts)
+    return sorted(facts), sorted(control)
 
 
 def regen_enum_facts():
     """lean/ShootVerif/Gen/EnumFacts.lean, regenerated from the CURRENT source (core.REPO) whenever c04 / c12 / c14 are imported"""
-    facts = enum_source_facts()
+    facts, control = enum_source_facts()
     lines = ["-- REGENERATED on every C04 / C12 / C14 check run by tools/vlib/enumgen.py (regen_enum_facts) from /repo/internal/enumer. Do not edit.",
              "namespace ShootVerif.EnumFacts",
              "/-- every selector on the receiver in the body of every method of enumer.Generator: (method, x, y) for `g.x.y`,",
              "    y = \"\" for a bare `g.x`, y = \"()\" for a call `g.x(…)` -/",
              "def recvSelectors : List (String × String × String) := ["]
     lines += ["  (%s, %s, %s)%s" % (_json.dumps(a), _json.dumps(b), _json.dumps(c), "," if k < len(facts) - 1 else "") for k, (a, b, c) in enumerate(facts)]
+    lines += ["]", "/-- (method, keyword, number of occurrences in the method body) for the branching keywords -/",
+              "def controlCounts : List (String × String × Nat) := ["]
+    lines += ["  (%s, %s, %d)%s" % (_json.dumps(a), _json.dumps(b), c, "," if k < len(control) - 1 else "") for k, (a, b, c) in enumerate(control)]
     lines += ["]", "end ShootVerif.EnumFacts", ""]
     text = "\n".join(lines)
     path = os.path.join(core.LEAN, "ShootVerif", "Gen", "EnumFacts.lean")
